@@ -63,6 +63,13 @@ def parse_filter_dict(filter_dict: Dict[str, Any]) -> List[FilterExpression]:
 
             if op_str_lower == "between":
                 # Expand to two conditions: lo <= column <= hi
+                if not isinstance(value, (list, tuple)):
+                    # `lo, hi = "ab"` would unpack the CHARACTERS of a string
+                    # (b"ab": its byte values) and answer a different question.
+                    raise ValueError(
+                        f"Filter on '{column}': 'between' takes a (lo, hi) pair, "
+                        f"got {type(value).__name__}"
+                    )
                 lo, hi = value
                 expressions.append(FilterExpression(column, FilterOp.GE, lo))
                 expressions.append(FilterExpression(column, FilterOp.LE, hi))
@@ -72,6 +79,13 @@ def parse_filter_dict(filter_dict: Dict[str, Any]) -> List[FilterExpression]:
                 expressions.append(FilterExpression(column, FilterOp.IS_NOT_NULL, None))
             else:
                 op = _parse_op(op_str)
+                if op in (FilterOp.IN, FilterOp.NOT_IN) and isinstance(value, (str, bytes, bytearray)):
+                    # Iterating a string yields its characters: ("in", "ab")
+                    # would silently mean IN ('a', 'b').
+                    raise ValueError(
+                        f"Filter on '{column}': '{op.value}' takes a list of values, "
+                        f"got {type(value).__name__} - wrap a single value in a list"
+                    )
                 expressions.append(FilterExpression(column, op, value))
         elif condition is None:
             # {"column": None} reads as "column IS NULL", but SQL equality with
